@@ -31,6 +31,12 @@ CHECKS = {
          "property text (raw bit tests, NoDup block numbers, at-most-once singleton types, payload present, status-report restriction, creation-time-zero "
          "rule) holds; K-val channel on bytes of the Python reference encoder over the rule space with a Python transcription of the rules as oracle.",
          "bitflags from_bits_truncate/contains semantics modelled; HashSet modelled as list membership.", "DESIGN.md section 6 C07"),
+ "C08": ("Coq theorems C08_update_exact / C08_update_total / C08_frame: for every bundle in the decoder's image, every node, every u128 residence time and "
+         "every clock reading not before 2000, the transcription of update_extensions returns Ok(false) exactly when hop count+1 > limit, age+residence > "
+         "lifetime (ms) or creation+lifetime <= now computed on unbounded integers, otherwise Ok(true) with exactly hop+1 / age+residence / previous node "
+         "= node and nothing else changed; no panic in checked or wrapping arithmetic; K-ops channel: all boundary (limit,count) pairs and a boundary "
+         "cross product for age/residence/lifetime/creation/now under the clock hook, debug and release builds.",
+         "clock >= 2000-01-01 (dtn_time_now); std Duration::as_millis.", "DESIGN.md section 6 C08"),
  "C09": ("Coq theorems C09_unique / C09_unique_from / C09_complete / C09_sequential*: NoDup of returned (time, seq) pairs for every number of threads, calls, "
          "clock readings and every interleaving of the instrumented operations (invariant over the schedule), plus the non-overlapping clause; "
          "C09_pinned_refuted keeps the two-atomics defect machine-checked; model tied to the real now() by running model schedules on OS threads "
@@ -49,7 +55,7 @@ CHECKS = {
 
 PENDING = {
  "C05": "check not built yet (CRC window algebra is proved in Proofs/CrcAlgebra.v; pipeline theorem and channel pending)",
- "C06": "check not built yet", "C08": "check not built yet", "C10": "check not built yet",
+ "C06": "check not built yet", "C10": "check not built yet",
  "C11": "check not built yet", "C12": "check not built yet", "C13": "check not built yet", "C14": "check not built yet",
  "C15": "check not built yet", "C16": "check not built yet", "C19": "check not built yet", "C20": "check not built yet",
 }
